@@ -112,7 +112,17 @@ pub fn run(ctx: &mut Ctx) {
             match p.place {
                 0 => {
                     // put a placeholder text item into a random step
-                    let steps: Vec<usize> = r.blocks.iter().enumerate().filter(|(_, b)| matches!(b, Block::Step(_))).map(|(i, _)| i).collect();
+                    // only steps read in the default modes: between two mode switches (text / steps / duplicate-reference
+                    // regions of the well-formed recipes) a component is not read as it is outside
+                    let mut steps: Vec<usize> = Vec::new();
+                    let (mut define_default, mut duplicate_default) = (true, true);
+                    for (i, b) in r.blocks.iter().enumerate() {
+                        match b {
+                            Block::Switch(k, v) => { if k == "duplicate" { duplicate_default = v == "new" || v == "default"; } else { define_default = v == "all" || v == "default"; } }
+                            Block::Step(_) if define_default && duplicate_default => steps.push(i),
+                            _ => {}
+                        }
+                    }
                     if steps.is_empty() { r.blocks.push(Block::Step(vec![Item::Text(format!("go {marker} on."))])); }
                     else {
                         let bi = steps[rng.below(steps.len())];
